@@ -9,6 +9,7 @@ import (
 
 	"github.com/tetratelabs/wazero"
 	"github.com/tetratelabs/wazero/api"
+	"github.com/tetratelabs/wazero/experimental"
 	"github.com/tetratelabs/wazero/sys"
 
 	"verifharness/sim"
@@ -135,6 +136,7 @@ func runStartSpin(t *tape.Tape, cfg sim.Config) (res sim.Result) {
 	}
 	defer cancel()
 	fired := make(chan struct{})
+	closedCh := make(chan struct{})
 	_, err := rt.NewHostModuleBuilder("env").NewFunctionBuilder().WithFunc(func() {
 		if abandon.Load() {
 			panic("abandoned by the simulator")
@@ -147,6 +149,7 @@ func runStartSpin(t *tape.Tape, cfg sim.Config) (res sim.Result) {
 				<-ctx.Done()
 			case 2:
 				rt.Close(bg)
+				close(closedCh)
 			}
 			close(fired)
 		}
@@ -158,6 +161,7 @@ func runStartSpin(t *tape.Tape, cfg sim.Config) (res sim.Result) {
 	h := m.ImportFunc("env", "h", nil, nil)
 	st := m.AddFunc(nil, nil, nil, (&wasmb.Code{}).Loop(wasmb.BlockVoid).Call(h).Br(0).End().B, "")
 	m.Start = &st
+	m.Mem = &wasmb.Limits{Min: 1, Max: 1, HasMax: true}
 	cm, err := rt.CompileModule(bg, m.Encode())
 	if err != nil {
 		panic(err)
@@ -166,10 +170,23 @@ func runStartSpin(t *tape.Tape, cfg sim.Config) (res sim.Result) {
 	// instance-per-request pattern: the same name, usually none)
 	ninst := 1 + t.Choose(2)
 	name := tape.Pick(t, []string{"", "s"})
+	// late: the second instantiation is past the runtime's own closed check but has not begun its start
+	// function when the runtime is closed (it is held inside its memory allocation until then)
+	late := ninst == 2 && cause == 2 && t.Chance(1, 2)
 	all := make(chan error, ninst)
 	for i := 0; i < ninst; i++ {
+		ictx := ctx
+		if late && i == 1 {
+			ictx = experimental.WithMemoryAllocator(ctx, experimental.MemoryAllocatorFunc(func(cap, max uint64) experimental.LinearMemory {
+				select {
+				case <-closedCh:
+				case <-time.After(5 * time.Second):
+				}
+				return &plainMem{}
+			}))
+		}
 		go func() {
-			_, err := rt.InstantiateModule(ctx, cm, wazero.NewModuleConfig().WithName(name))
+			_, err := rt.InstantiateModule(ictx, cm, wazero.NewModuleConfig().WithName(name))
 			all <- err
 		}()
 	}
@@ -209,3 +226,14 @@ func runStartSpin(t *tape.Tape, cfg sim.Config) (res sim.Result) {
 	}
 	return
 }
+
+// plainMem: a trivial experimental.LinearMemory.
+type plainMem struct{ b []byte }
+
+func (m *plainMem) Reallocate(size uint64) []byte {
+	nb := make([]byte, size)
+	copy(nb, m.b)
+	m.b = nb
+	return nb
+}
+func (m *plainMem) Free() {}
